@@ -67,6 +67,14 @@ impl StatusCode {
     pub fn is_success(&self) -> (b: bool) ensures b == (200 <= status_code(*self) < 300) { unimplemented!() }
     #[verifier::external_body]
     pub fn as_u16(&self) -> (r: u16) ensures r as int == status_code(*self) { unimplemented!() }
+    #[verifier::external_body]
+    pub fn is_informational(&self) -> (b: bool) ensures b == (100 <= status_code(*self) < 200) { unimplemented!() }
+    #[verifier::external_body]
+    pub fn is_redirection(&self) -> (b: bool) ensures b == (300 <= status_code(*self) < 400) { unimplemented!() }
+    #[verifier::external_body]
+    pub fn is_client_error(&self) -> (b: bool) ensures b == (400 <= status_code(*self) < 500) { unimplemented!() }
+    #[verifier::external_body]
+    pub fn is_server_error(&self) -> (b: bool) ensures b == (500 <= status_code(*self) < 600) { unimplemented!() }
 }
 /// StatusCode::OK and friends (associated consts of http::StatusCode)
 #[verifier::external_body]
